@@ -9,7 +9,7 @@
 (* disagreement; "not accepted" (the log is not consumed to its end) can   *)
 (* only mean a malformed log or a specification bug.                       *)
 (***************************************************************************)
-EXTENDS Integers, Sequences, TLC, Json, J_Prims, J_Build, J_Tables, J_C07, J_C15, J_Text, J_C17, J_C20, J_C04, J_C18, J_C06, J_C16
+EXTENDS Integers, Sequences, TLC, Json, J_Prims, J_Build, J_Tables, J_C07, J_C15, J_Text, J_C17, J_C20, J_C04, J_C18, J_C06, J_C16, J_MapBodies
 
 CONSTANT TraceFile
 Log == ndJsonDeserialize(TraceFile)
@@ -45,6 +45,7 @@ Judge(e) ==
          [] e.op \in {"TextEnc", "TextDec", "TextEncChunks", "TextDecMutate", "TextGuard"} -> JText(e)
          [] e.op = "RAddrAccess" -> JRAddrAccess(e)
          [] e.op \in {"ByteSweep", "RandomSweep", "CodeSweep"} -> JSweepOutcome(e)
+         [] e.op = "MappingBodies" -> JMappingBodies(e)
          [] e.op = "SignedProbe" -> JSignedProbe(e)
          [] e.op = "SignBuild" -> JSignBuild(e)
          [] e.op = "EncDec" -> JEncDec(e)
